@@ -6,6 +6,8 @@ import (
 	"crypto/x509"
 	"encoding/pem"
 	"fmt"
+	"os"
+	"path/filepath"
 	"time"
 
 	"github.com/google/gce-tcb-verifier/cmd/output"
@@ -21,6 +23,7 @@ import (
 	"verifsim/core"
 	"verifsim/gcli"
 	"verifsim/images"
+	"verifsim/keypool"
 	"verifsim/refv"
 	"verifsim/worldp"
 )
@@ -35,6 +38,7 @@ func init() {
 			"reference verifier = weakest reading: PSS/SHA-256 (any salt) by the embedded certificate's key over the carried payload, certificate signed by (or equal to) a caller root, time within the certificate's validity",
 			"hardware report/quote signatures are not part of the property; attestations are fabricated protos",
 			"TdxValidate without a supplied endorsement is excluded (it ignores opts.Getter and would open a real socket)",
+			"the worker's system trust store (SSL_CERT_FILE) is made to contain the simulated authority's roots, so a verifier that falls back to it when the caller passes no roots is observable",
 		},
 		Components: []core.Component{
 			{Name: "verify.*, gcetcbendorsement.SevValidate/TdxValidate/SevPolicy/TdxPolicy, gcetcbendorsement/cmd verify|sev validate|tdx validate", Kind: "real", Note: "CLI through hook H2 (Backend injection)"},
@@ -45,7 +49,31 @@ func init() {
 		},
 		Budget: core.StdBudget(2500, 100*time.Second, 400000, 9*time.Minute),
 		Body:   runC01,
+		Init:   c01SystemRoots,
 	})
+}
+
+// c01SystemRoots makes the host's system trust store (what crypto/x509 falls back to when a
+// caller passes no roots) contain the simulated authority's root for every key of the pool, so
+// that "no roots given" can never be mistaken for "trust whatever the machine trusts" unnoticed.
+func c01SystemRoots() {
+	dir, err := os.MkdirTemp("", "verifsim-sysroots-")
+	if err != nil {
+		panic(err)
+	}
+	core.OnExit(func() { os.RemoveAll(dir) })
+	var bundle []byte
+	for b := range keypool.Pool() {
+		r := core.NewRun("C01", "init", -1, 0, core.NewReplay(core.Trace{{L: "keypool-base", N: len(keypool.Pool()), V: b}}), nil)
+		core.Execute(r, func(r *core.Run) { bundle = append(bundle, pemOf(NewParty(r, "a", 0).Root)...) })
+	}
+	file := filepath.Join(dir, "roots.pem")
+	if err := os.WriteFile(file, bundle, 0o644); err != nil {
+		panic(err)
+	}
+	os.MkdirAll(filepath.Join(dir, "empty"), 0o755)
+	os.Setenv("SSL_CERT_FILE", file)
+	os.Setenv("SSL_CERT_DIR", filepath.Join(dir, "empty"))
 }
 
 // memIO is the in-memory cmd.IO double (package gcli).
@@ -75,7 +103,7 @@ type delivery struct {
 func deliver(r *core.Run, a, f *Party, base *Issued) delivery {
 	d := delivery{base: base}
 	cur := a.Current()
-	switch k := r.Intn(12, "channel-op"); k {
+	switch k := r.Intn(13, "channel-op"); k {
 	case 0, 1:
 		d.bytes, d.op, d.genuine = base.Bytes, "genuine", true
 	case 2:
@@ -146,6 +174,18 @@ func deliver(r *core.Run, a, f *Party, base *Issued) delivery {
 		payload, _ := proto.Marshal(g)
 		d.bytes, _ = proto.Marshal(&epb.VMLaunchEndorsement{SerializedUefiGolden: payload, Signature: base.Proto.Signature})
 		d.op = "payload-edit-keep-signature"
+	case 12:
+		// a certificate genuinely issued by the right root key, but with another signature
+		// algorithm (legal X.509), certifying a key that signs the endorsement with the matching
+		// non-PSS/SHA-256 scheme: chain and time are fine, the endorsement signature is not
+		// RSA-PSS/SHA-256
+		ak := AttackerKey(a, r.Intn(3, "alt-key"))
+		alg, scheme := x509.SHA256WithRSA, 1
+		if r.Bool("alt-alg-pss384") {
+			alg, scheme = x509.SHA384WithRSAPSS, 2
+		}
+		c := ForgeCertAlg(ak, a.Root, a.RootKey, base.Cert.NotBefore, base.Cert.NotAfter, 80, alg)
+		d.bytes, d.op = Reassemble(base.Golden, c, ak, scheme), fmt.Sprintf("resign:root-issued-cert-alg-%v", alg)
 	default:
 		d.bytes, d.op = Splice(r, base.Bytes, f.Current().Cert.Raw, "splice")
 		d.op = "blob:" + d.op
